@@ -33,6 +33,7 @@ func allowInit(path string) bool {
 type Job struct {
 	Fn     *ssa.Function
 	Prefix []int
+	Model  map[string]ModelValue
 }
 
 type RunConfig struct {
@@ -73,6 +74,7 @@ type pool struct {
 	paths   map[*ssa.Function]int
 	maxPaths int
 	dropped map[*ssa.Function]int
+	finished int
 }
 
 func (p *pool) get() (Job, bool) {
@@ -98,10 +100,10 @@ func (p *pool) get() (Job, bool) {
 	}
 }
 
-func (p *pool) done(fn *ssa.Function, sibs [][]int) {
+func (p *pool) done(fn *ssa.Function, sibs []Sib) {
 	p.mu.Lock()
 	for _, s := range sibs {
-		p.jobs = append(p.jobs, Job{Fn: fn, Prefix: s})
+		p.jobs = append(p.jobs, Job{Fn: fn, Prefix: s.Prefix, Model: s.Model})
 	}
 	p.active--
 	p.mu.Unlock()
@@ -152,6 +154,8 @@ func RunHarnesses(l *Loaded, fns []*ssa.Function, cfg RunConfig) (map[string]*Ha
 			in := NewInterp(l.Prog, solver)
 			in.AllowInit = allowInit
 			in.KnownIDs = cfg.KnownIDs
+			in.NoModelGuide = os.Getenv("GOSYM_NOMODEL") != ""
+			in.NoMerge = os.Getenv("GOSYM_NOMERGE") != ""
 			if cfg.MaxDecisions > 0 {
 				in.MaxDecisions = cfg.MaxDecisions
 			}
@@ -184,6 +188,8 @@ func RunHarnesses(l *Loaded, fns []*ssa.Function, cfg RunConfig) (map[string]*Ha
 				in.fpBits = map[*Term]*Term{}
 				in.nondetCount = map[string]int{}
 				in.concNondets = map[string]uint64{}
+		in.factMap = map[string]bool{}
+				in.factMap = map[string]bool{}
 				saved := in.MaxSteps
 				in.MaxSteps = 2_000_000_000
 				for _, pk := range cfg.InitPkgs {
@@ -230,7 +236,15 @@ func RunHarnesses(l *Loaded, fns []*ssa.Function, cfg RunConfig) (map[string]*Ha
 					}
 				}
 				in.Solver = sv
-				in.runPath(j.Fn, j.Prefix)
+				in.runPath(j.Fn, j.Prefix, j.Model)
+				if os.Getenv("GOSYM_PROGRESS") != "" {
+					p.mu.Lock()
+					p.finished++
+					if p.finished%50 == 0 {
+						fmt.Fprintf(os.Stderr, "progress: %d paths done, %d pending, steps=%d decisions=%d queries=%d\n", p.finished, len(p.jobs), in.steps, len(in.decisions), sv.Stats.Queries)
+					}
+					p.mu.Unlock()
+				}
 				p.done(j.Fn, in.newSibs)
 			}
 			for k, sv := range solvers {
@@ -403,6 +417,7 @@ func NewConcreteInterp(l *Loaded, cfg RunConfig) (*Interp, func(), error) {
 		in.fpBits = map[*Term]*Term{}
 		in.nondetCount = map[string]int{}
 		in.concNondets = map[string]uint64{}
+		in.factMap = map[string]bool{}
 		saved := in.MaxSteps
 		in.MaxSteps = 2_000_000_000
 		for _, pk := range cfg.InitPkgs {
